@@ -187,6 +187,16 @@ CHECKS = {
         "Only user-declared names are compared; some kinds are tolerated per context (types/subroutines in operand position, derived-type objects and functions after CALL, shadowed host objects).",
         "DESIGN.md §3 C12",
     ),
+    "C07": (
+        "fault_enumeration",
+        "Hypothesis-generated valid programs (gfortran-validated) with exhaustive per-program enumeration of (defect class, seeding position) faults; pattern/severity/line oracle per class",
+        "Every generated valid program must publish no severity-1 diagnostic; then each of the 15 documented defect classes is seeded at every applicable "
+        "position of that program (duplicate declaration, masking, bare END for each construct, unknown module, inaccessible type, undeclared dummy, INTENT on "
+        "non-dummy, second CONTAINS, statements before the first unit, IMPORT outside interface, USE after IMPLICIT, missing CONTAINS, procedure in TYPE/BLOCK, "
+        "unimplemented deferred binding, over-long line) and the class's diagnostic must appear with its severity on the offending line with no unrelated error.",
+        "Severities and accepted lines follow the implementation (CLASSES / CONSEQ tables in checks/c07.py); programs are limited to fmodel's constructs.",
+        "DESIGN.md §3 C07",
+    ),
 }
 
 NOT_YET = "check not built yet in this session (work in progress; see DESIGN.md §3 for the planned generator and oracle)"
